@@ -420,13 +420,11 @@ Record state := {
   locked : bool;
   wo : bool;
   gen_priv : N;
-  gen_pub : N;
-  wcached : bool      (* an imported-xpub account sits in the in-memory account cache *)
+  gen_pub : N
 }.
 
 Definition init : state :=
-  {| dsk := []; created := false; locked := true; wo := false; gen_priv := 0; gen_pub := 0;
-     wcached := false |}.
+  {| dsk := []; created := false; locked := true; wo := false; gen_priv := 0; gen_pub := 0 |}.
 
 (** the watching-only flag as Open reads it *)
 Definition disk_wo (d : disk) : bool :=
@@ -488,10 +486,7 @@ Definition writes (strip_tr : bool) (st : state) (o : op) : option (list write) 
   match o with
   | OCreate => if created st then None else Some w_create
   | OReopen => if created st then Some [] else None
-  | OUnlock pass_ok =>
-    (* Unlock decrypts the private key of every CACHED account; a cached
-       imported-xpub account has none and makes it fail (manager.go Unlock) *)
-    if negb (created st) || wo st || negb pass_ok || (locked st && wcached st) then None else Some []
+  | OUnlock pass_ok => if negb (created st) || wo st || negb pass_ok then None else Some []
   | OLock => if negb (created st) || wo st || locked st then None else Some []
   | ONewAccount s name nlen =>
     if negb (created st) || wo st || locked st || negb (scope_exists s d) || name_taken s name nlen d
@@ -565,20 +560,6 @@ Definition writes (strip_tr : bool) (st : state) (o : op) : option (list write) 
 (** memory side of an operation (lock state, watching-only flag, passphrase
     generations).  Lock and Unlock have no disk effect: their write list is
     empty. *)
-Definition is_watch_acct (s : scope) (a : N) (d : disk) : bool :=
-  match read_acct s a d with
-  | Some {| ai_kind := AWatch _ _ |} => true
-  | _ => false
-  end.
-
-(** loadAccountInfo caches the account an operation works on *)
-Definition caches_watch_acct (st : state) (o : op) : bool :=
-  match o with
-  | ODerive s acct _ _ => is_watch_acct s acct (dsk st)
-  | OMarkUsed _ (AChain s acct _ _) => is_watch_acct s acct (dsk st)
-  | _ => false
-  end.
-
 Definition step (strip_tr : bool) (st : state) (o : op) : state * bool :=
   match writes strip_tr st o with
   | None =>
@@ -587,7 +568,7 @@ Definition step (strip_tr : bool) (st : state) (o : op) : state * bool :=
      | OUnlock _ =>
        if created st && negb (wo st)
        then {| dsk := dsk st; created := created st; locked := true; wo := wo st;
-               gen_priv := gen_priv st; gen_pub := gen_pub st; wcached := wcached st |}
+               gen_priv := gen_priv st; gen_pub := gen_pub st |}
        else st
      | _ => st
      end, false)
@@ -606,11 +587,7 @@ Definition step (strip_tr : bool) (st : state) (o : op) : state * bool :=
               | _ => wo st
               end;
         gen_priv := match o with OChangePass true _ => gen_priv st + 1 | _ => gen_priv st end;
-        gen_pub := match o with OChangePass false _ => gen_pub st + 1 | _ => gen_pub st end;
-        wcached := match o with
-                   | OCreate | OReopen => false
-                   | _ => wcached st || caches_watch_acct st o
-                   end |}, true)
+        gen_pub := match o with OChangePass false _ => gen_pub st + 1 | _ => gen_pub st end |}, true)
   end.
 
 Definition run (strip_tr : bool) (h : list op) : state :=
